@@ -586,4 +586,139 @@ example : (HRepl.run {} [(.background, .stmts [{ id := 1, vdecl := [1] }]),
     (.done, .stmts [{ id := 2, isExpr := true, leaves := true, fails := true }]),
     (.background, .stmts [{ id := 3, isExpr := true, leaves := true, uses := [1] }])]).2 = [.ok 0, .failed, .ok 3] := by decide
 
+/-! ## Layer 6: the import cache across pieces -/
+
+/-- **import_once_across_pieces.**  For EVERY module configuration (initial states, which module
+    imports which), every set of host-supplied modules, every state the session is in and EVERY
+    partition of a program into consecutive pieces (any number of pieces, imports of the same
+    module under any handles in any pieces, mutations through any handle in between), the session
+    fed piece by piece to the one VM ends in exactly the state of the concatenated program evaluated
+    at once: the same tick log — each module body runs exactly when it runs in the whole program —
+    the same module states, the same bindings of handles, the same integer globals and the same
+    value for every expression statement. -/
+theorem import_once_across_pieces (cfg : ModCfg) (seed : List Nat) (s : ISt) (h : List (List IStmt)) :
+    impImpl cfg seed s h = impWhole cfg s h :=
+  impRun_keep cfg seed h s
+
+/-- the two observables the harness compares on the real code, for every partition: the order in
+    which module bodies ran and the values of all expression statements -/
+theorem import_log_and_values (cfg : ModCfg) (seed : List Nat) (s : ISt) (h : List (List IStmt)) :
+    (impImpl cfg seed s h).log = (impWhole cfg s h).log ∧ (impImpl cfg seed s h).vals = (impWhole cfg s h).vals := by
+  rw [import_once_across_pieces]
+  exact ⟨rfl, rfl⟩
+
+/-- two partitions of the same program cannot be told apart -/
+theorem import_partition_irrelevant (cfg : ModCfg) (seed : List Nat) (s : ISt) (h₁ h₂ : List (List IStmt))
+    (e : h₁.flatten = h₂.flatten) : impImpl cfg seed s h₁ = impImpl cfg seed s h₂ := by
+  rw [import_once_across_pieces, import_once_across_pieces, impWhole, impWhole, e]
+
+/-- **A module body runs at most once per session and never for a host-supplied module**: from the
+    start state, for every session, the tick log has no repetition and names no seeded module. -/
+theorem module_body_runs_once (cfg : ModCfg) (seed : List Nat) (h : List (List IStmt)) :
+    (impImpl cfg seed (ISt.start seed) h).log.Nodup ∧ ∀ m ∈ (impImpl cfg seed (ISt.start seed) h).log, m ∉ seed := by
+  rw [import_once_across_pieces]
+  have inv := execI_inv cfg h.flatten (ISt.start seed) seed
+    ⟨List.nodup_nil, fun _ hm => (List.not_mem_nil hm).elim, fun _ hm => hm⟩
+  exact ⟨inv.1, fun m hm => (inv.2.1 m hm).2⟩
+
+/-- `import m as a; a.bump(1)` / `import m as b; [a.get()]` with `init m = 0` -/
+def w_reimport : List (List IStmt) := [[.imp 0 0, .bump 0 1], [.imp 1 0, .get [0, 1]]]
+
+def w_cfg : ModCfg := ⟨fun _ => 0, fun _ => false⟩
+
+/-- **Contrast (not the code): an import cache that every run starts afresh.**  The second piece's
+    import misses, the module body runs again on the loaded module: the tick is repeated and the
+    state set through the first handle is lost — for both handles. -/
+theorem reset_every_run_differs :
+    (impRun true w_cfg [] (ISt.start []) w_reimport).log = [0, 0] ∧
+    (impRun true w_cfg [] (ISt.start []) w_reimport).vals = [[1], [0, 0]] ∧
+    (impWhole w_cfg (ISt.start []) w_reimport).log = [0] ∧
+    (impWhole w_cfg (ISt.start []) w_reimport).vals = [[1], [1, 1]] := by decide
+
+example : (impImpl w_cfg [] (ISt.start []) w_reimport).log = [0] ∧
+    (impImpl w_cfg [] (ISt.start []) w_reimport).vals = [[1], [1, 1]] := by decide
+
+/-- a module that imports another one: `import m1` runs m1's body, which ticks, imports m0, and
+    initialises; a later `import m0 as h` in another piece is a cache hit -/
+example : (impImpl ⟨fun m => 10 * (m + 1), fun _ => true⟩ [] (ISt.start [])
+    [[.imp 1 1], [.imp 0 0, .bump 0 5], [.imp 2 1, .below 2, .get [0, 1, 2]]]).log = [1, 0] := by decide
+
+/-! ## Layer 7: globals are carried across piece boundaries by slot -/
+
+/-- **reload_preserves_slots.**  For EVERY root symbol table (`names`, with or without repeated
+    names), every array of that length, EVERY number of pieces each adding any slots under any names
+    (also names already in the table: block variables that shadow top-level variables) and running
+    any slot statements that address the table as it is after that piece's compilation
+    (`scopedFrom`, what a compiler emits): after all piece boundaries the table is the whole
+    program's table, EVERY slot holds exactly what it holds when the concatenated program is
+    evaluated at once on one array, and every expression statement has yielded the same value. -/
+theorem reload_preserves_slots (names : List Nat) (a : Slots) (vs : List Int) (h : List SPiece)
+    (ha : a.length = names.length) (hs : scopedFrom names.length h = true) :
+    slotRun reloadBySlot names (a, vs) h = (names ++ allDecls h, slotWhole names a vs h) := by
+  obtain ⟨e1, e2, _, e4⟩ := slotRun_pad (names.length + (allDecls h).length) h names a vs ha hs (Nat.le_refl _)
+  simp only [Nat.sub_self, List.replicate_zero, List.append_nil] at e1
+  have hN : (names ++ allDecls h).length = names.length + (allDecls h).length := List.length_append
+  refine Prod.ext e4 (Prod.ext ?_ ?_)
+  · simp only [slotWhole, hN]; exact e1
+  · simp only [slotWhole, hN]; exact e2
+
+/-- every slot, one by one (the form the harness evaluates through `vm.Get` for the first slot of
+    every name) -/
+theorem reload_preserves_every_slot (names : List Nat) (a : Slots) (vs : List Int) (h : List SPiece)
+    (ha : a.length = names.length) (hs : scopedFrom names.length h = true) (i : Nat) :
+    (slotRun reloadBySlot names (a, vs) h).2.1.getD i none = (slotWhole names a vs h).1.getD i none := by
+  rw [reload_preserves_slots names a vs h ha hs]
+
+/-- what `vm.Get` returns for every name is what it returns after whole-program evaluation -/
+theorem get_by_name_preserved (names : List Nat) (a : Slots) (vs : List Int) (h : List SPiece)
+    (ha : a.length = names.length) (hs : scopedFrom names.length h = true) (nm : Nat) :
+    getByName (slotRun reloadBySlot names (a, vs) h).1 (slotRun reloadBySlot names (a, vs) h).2.1 nm
+      = getByName (names ++ allDecls h) (slotWhole names a vs h).1 nm := by
+  rw [reload_preserves_slots names a vs h ha hs]
+
+/-- **Names play no role.**  Renaming the slots in any way — making distinct names equal or equal
+    names distinct — changes neither an array nor a value of any session. -/
+theorem slot_names_irrelevant (ρ : Nat → Nat) (h : List SPiece) : ∀ (names : List Nat) (s : SSt),
+    (slotRun reloadBySlot (names.map ρ) s (h.map fun p => { p with decls := p.decls.map ρ })).2
+      = (slotRun reloadBySlot names s h).2 := by
+  induction h with
+  | nil => intro names s; rfl
+  | cons p rest ih =>
+    intro names s
+    obtain ⟨a, vs⟩ := s
+    simp only [List.map_cons, slotRun, ← List.map_append]
+    rw [show reloadBySlot (List.map ρ (names ++ p.decls)) a = reloadBySlot (names ++ p.decls) a by
+      simp only [reloadBySlot, List.length_map]]
+    exact ih _ _
+
+/-- `x := 100; for x := 0; x < 3; x++ { }` / `x`: slots 0 and 1 are both called 7 -/
+def w_shadow : List SPiece :=
+  [⟨[7, 7], [.set 0 (.lit 100), .set 1 (.lit 0), .set 1 (.add (.slot 1) (.lit 1)), .set 1 (.add (.slot 1) (.lit 1)),
+             .set 1 (.add (.slot 1) (.lit 1))]⟩,
+   ⟨[], [.expr (.slot 0)]⟩]
+
+/-- **Contrast (not the code): carrying the globals over by NAME.**  At the piece boundary the outer
+    variable takes the block variable's last value: the second piece yields 3, the whole program 100. -/
+theorem reload_by_name_conflates :
+    (slotRun reloadByName [] ([], []) w_shadow).2 = ([some 3, some 3], [3]) ∧
+    (slotRun reloadBySlot [] ([], []) w_shadow).2 = ([some 100, some 3], [100]) ∧
+    slotWhole [] [] [] w_shadow = ([some 100, some 3], [100]) := by decide
+
+example : scopedFrom 0 w_shadow = true := by decide
+example : slotRun reloadBySlot [] ([], []) w_shadow = ([7, 7], slotWhole [] [] [] w_shadow) :=
+  reload_preserves_slots [] [] [] w_shadow rfl (by decide)
+
+/-- **Why no existing test could tell the two apart**: for a table WITHOUT repeated names the by-name
+    carry-over is the by-slot copy — for every array no longer than the table. -/
+theorem reload_by_name_eq_by_slot_of_nodup (names : List Nat) (a : Slots) (hn : names.Nodup)
+    (ha : a.length ≤ names.length) : reloadByName names a = reloadBySlot names a :=
+  reloadByName_eq_of_nodup names a hn ha
+
+/-- … and so is every session whose final table has no repeated name: the repeated names (block
+    variables shadowing top-level variables) are exactly what separates the contrast from the code. -/
+theorem by_name_session_eq_of_nodup (names : List Nat) (a : Slots) (vs : List Int) (h : List SPiece)
+    (ha : a.length = names.length) (hs : scopedFrom names.length h = true) (hn : (names ++ allDecls h).Nodup) :
+    slotRun reloadByName names (a, vs) h = slotRun reloadBySlot names (a, vs) h :=
+  slotRun_byName_eq h names a vs ha hs hn
+
 end Risor.C18
